@@ -148,12 +148,57 @@ def stepDiv (w : Nat) : Cell → Cell
   | .nan => .nan
   | _ => .untracked
 
+/-- how the source forms the integer difference (decided from the generated kernel bodies):
+`native` = `X[i, j] - y[j]` in the promoted C type (the code as found);
+`viaDouble` = the repaired form `<double>X[i, j] - <double>y[j]` (for int64 operands of equal
+sign: `<double>(X[i, j] - y[j])`, which cannot overflow) — exact up to float rounding, which
+the model does not follow -/
+inductive IntArith where
+  | native | viaDouble
+  deriving DecidableEq, Repr
+
+/-- loop / `out[i]` statements of the kernels as found -/
+def nativeBodies : List (String × List String) :=
+  [("_euclidean", ["for i in prange(n_samples, nogil=True):", "out[i] = 0",
+                   "for i in prange(n_samples, nogil=True):", "for j in range(n_features):",
+                   "out[i] += (X[i, j] - y[j])**2",
+                   "for i in prange(n_samples, nogil=True):", "out[i] = sqrt(out[i])"]),
+   ("_hamming", ["for i in prange(n_samples, nogil=True):", "out[i] = 0",
+                 "for j in range(n_features):", "if y[j] != X[i, j]:", "out[i] += 1",
+                 "out[i] /= n_features"]),
+   ("_manhattan", ["for i in prange(n_samples, nogil=True):", "out[i] = 0",
+                   "for i in prange(n_samples, nogil=True):", "for j in range(n_features):",
+                   "out[i] += fabs(X[i, j] - y[j])"])]
+
+/-- the same with the overflow repair of `/tmp/fix-proposals/C13-overflow.diff` -/
+def repairedBodies : List (String × List String) :=
+  [("_euclidean", ["for i in prange(n_samples, nogil=True):", "out[i] = 0",
+                   "for i in prange(n_samples, nogil=True):", "for j in range(n_features):",
+                   "if FLOAT_TYPE_T is np.int64_t and (X[i, j] < 0) == (y[j] < 0):",
+                   "out[i] += (<double>(X[i, j] - y[j]))**2", "else:",
+                   "out[i] += (<double>X[i, j] - <double>y[j])**2",
+                   "for i in prange(n_samples, nogil=True):", "out[i] = sqrt(out[i])"]),
+   ("_hamming", ["for i in prange(n_samples, nogil=True):", "out[i] = 0",
+                 "for j in range(n_features):", "if y[j] != X[i, j]:", "out[i] += 1",
+                 "out[i] /= n_features"]),
+   ("_manhattan", ["for i in prange(n_samples, nogil=True):", "out[i] = 0",
+                   "for i in prange(n_samples, nogil=True):", "for j in range(n_features):",
+                   "if FLOAT_TYPE_T is np.int64_t and (X[i, j] < 0) == (y[j] < 0):",
+                   "out[i] += fabs(X[i, j] - y[j])", "else:",
+                   "out[i] += fabs(<double>X[i, j] - <double>y[j])"])]
+
+/-- the arithmetic the current source uses -/
+def intArith : IntArith :=
+  if Gen.kernelBodies = repairedBodies then .viaDouble else .native
+
 /-- contribution of coordinate `(x, y)` for integer element types -/
-def termInt (k : Kernel) (c : CArith) (x y : Int) : Rat :=
-  match k with
-  | .euclidean => ((squareC c x y : Int) : Rat)          -- `(X[i,j]-y[j])**2`, L140
-  | .manhattan => (((diffC c x y).natAbs : Int) : Rat)   -- `fabs(X[i,j]-y[j])`, L115 (int → double)
-  | .hamming => if y ≠ x then 1 else 0                   -- `if y[j] != X[i,j]: out[i] += 1`, L91-92
+def termInt (a : IntArith) (k : Kernel) (c : CArith) (x y : Int) : Rat :=
+  match k, a with
+  | .hamming, _ => if y ≠ x then 1 else 0                       -- `if y[j] != X[i,j]: out[i] += 1`, L91-92
+  | .euclidean, .native => ((squareC c x y : Int) : Rat)        -- `(X[i,j]-y[j])**2`, L140
+  | .manhattan, .native => (((diffC c x y).natAbs : Int) : Rat) -- `fabs(X[i,j]-y[j])`, L115 (int → double)
+  | .euclidean, .viaDouble => ((x : Rat) - (y : Rat)) * ((x : Rat) - (y : Rat))
+  | .manhattan, .viaDouble => if (x : Rat) - (y : Rat) < 0 then -((x : Rat) - (y : Rat)) else (x : Rat) - (y : Rat)
 
 /-- contribution of coordinate `(x, y)` for float element types (exact rationals) -/
 def termRat (k : Kernel) (x y : Rat) : Rat :=
@@ -224,12 +269,19 @@ def Arr.extentOk {ε} (a : Arr ε) : Bool :=
     (decide (0 ≤ extentLo a.offset a.shape a.strides) &&
      decide (extentHi a.offset a.shape a.strides < (a.buf.size : Int))))
 
-/-- logical rows of a 2-D view: `X[i, j]` for `i < n`, `j < w` (row-major lists) -/
+/-- all reads succeeded -/
+def allSome {α} : List (Option α) → Option (List α)
+  | [] => some []
+  | none :: _ => none
+  | some a :: rest => (allSome rest).map (a :: ·)
+
+/-- logical rows of a 2-D view: `X[i, j]` for `i < n`, `j < w` (row-major lists);
+`none` as soon as one index falls outside the buffer -/
 def Arr.rows? {ε} (a : Arr ε) (n w : Nat) : Option (List (List ε)) :=
-  (List.range n).mapM (fun i => (List.range w).mapM (fun j => a.read2? i j))
+  allSome ((List.range n).map (fun i => allSome ((List.range w).map (fun j => a.read2? i j))))
 /-- logical elements of a 1-D view -/
 def Arr.elems? {ε} (a : Arr ε) (w : Nat) : Option (List ε) :=
-  (List.range w).mapM (fun j => a.read1? j)
+  allSome ((List.range w).map (fun j => a.read1? j))
 
 /-- C-ordered array holding the logical matrix `f` -/
 def Arr.ofFnC {ε} (n w : Nat) (f : Nat → Nat → ε) : Arr ε :=
@@ -239,6 +291,9 @@ def Arr.ofFnC {ε} (n w : Nat) (f : Nat → Nat → ε) : Arr ε :=
 def Arr.ofFnF {ε} (n w : Nat) (f : Nat → Nat → ε) : Arr ε :=
   { buf := Array.ofFn (n := n * w) (fun k => f (k.val % n) (k.val / n)),
     offset := 0, shape := [n, w], strides := [1, (n : Int)] }
+/-- contiguous 1-D array holding the logical vector `g` -/
+def Arr.ofFn1 {ε} (w : Nat) (g : Nat → ε) : Arr ε :=
+  { buf := Array.ofFn (n := w) (fun k => g k.val), offset := 0, shape := [w], strides := [1] }
 /-- basic-slicing view `a[r0 : : rs, c0 : : cs]` with `nr × nc` elements (steps may be negative) -/
 def Arr.sub2 {ε} (a : Arr ε) (r0 : Nat) (rs : Int) (nr : Nat) (c0 : Nat) (cs : Int) (nc : Nat) : Arr ε :=
   match a.strides with
@@ -273,20 +328,20 @@ the `out` that the kernel will receive (`none` as input = allocate `np.zeros(X.s
 def prepare (X y : Meta) (out : Option Meta) : Except Err (List Nat) :=
   match X.shape, y.shape with
   | [n, wx], [wy] =>
-    if wx ≠ wy then throw .dataInvalid                      -- L48
+    if wx ≠ wy then Except.error .dataInvalid                      -- L48
     else match out with
-    | none => pure [n]                                      -- L56
+    | none => Except.ok [n]                                      -- L56
     | some o =>
-      if o.dtype ≠ "float64" then throw .dataInvalid       -- L59
+      if o.dtype ≠ "float64" then Except.error .dataInvalid       -- L59
       else match o.shape with
-      | [] => throw .indexError                             -- `out.shape[0]`, L63
+      | [] => Except.error .indexError                             -- `out.shape[0]`, L63
       | m :: rest =>
-        if m ≠ n then throw .dataInvalid                    -- L63
+        if m ≠ n then Except.error .dataInvalid                    -- L63
         -- L67-71: the message is built with `% out.shape`, a tuple of ≥ 2 items here, so the
         -- intended DataInvalid surfaces as a TypeError ("not all arguments converted")
-        else if rest ≠ [] then throw .typeError
-        else pure [m]
-  | _, _ => throw .dataInvalid          -- _check_is_2d L33 / _check_is_1d L39
+        else if rest ≠ [] then Except.error .typeError
+        else Except.ok [m]
+  | _, _ => Except.error .dataInvalid          -- _check_is_2d L33 / _check_is_1d L39
 
 /-- element types a kernel is compiled for (from the generated `ctypedef fused` lists) -/
 def Kernel.fusedName (k : Kernel) : Option String :=
@@ -301,14 +356,14 @@ def Kernel.dtypes (k : Kernel) : List DType :=
 /-- fused dispatch + buffer acquisition of `_kernel(X, y, out)`: the specialisation is
 chosen from `X`'s dtype (TypeError when there is none), then `y` must have the same
 element type and `out` must be a writable float64 buffer (ValueError otherwise) -/
-def dispatch (k : Kernel) (X y : Meta) (outWritable : Bool) : Except Err DType := do
+def dispatch (k : Kernel) (X y : Meta) (outWritable : Bool) : Except Err DType :=
   match DType.ofName X.dtype with
-  | none => throw .typeError
+  | none => .error .typeError
   | some t =>
-    if t ∉ k.dtypes then throw .typeError
-    if y.dtype ≠ X.dtype then throw .valueError
-    if !outWritable then throw .valueError
-    pure t
+    if t ∉ k.dtypes then .error .typeError
+    else if y.dtype ≠ X.dtype then .error .valueError
+    else if !outWritable then .error .valueError
+    else .ok t
 
 /-! ### the whole call -/
 
@@ -343,43 +398,44 @@ def progsOf {ε} (k : Kernel) (term : ε → ε → Rat) (rows : List (List ε))
 `n_samples = len(out)`, `n_features = len(y)`; rows are executed under the interleaving
 `schedule progs choices`. -/
 def kernelRun {ε} (k : Kernel) (term : ε → ε → Rat) (X y : Arr ε) (out : Arr Cell)
-    (choices : List Nat) : Except Err Result := do
-  let n ← match out.shape with          -- `n_samples = len(out)`
-    | [n] => pure n
-    | _ => throw .badRequest
-  let w ← match y.shape with            -- `n_features = len(y)`
-    | [w] => pure w
-    | _ => throw .badRequest
-  if !(X.extentOk && y.extentOk && out.extentOk) then throw .badRequest
-  let (so : Int) ← match out.strides with
-    | [s] => pure s
-    | _ => throw .badRequest
-  -- distinct rows must own distinct cells (false only for a stride-0 `as_strided` alias)
-  if so = 0 ∧ 1 < n then throw .badRequest
-  match X.rows? n w, y.elems? w with
-  | some rows, some ys =>
-    let progs := progsOf k term rows ys
-    let final := runMem out.offset so (schedule progs choices) (storeOf out.buf)
-    pure { buf := (List.range out.buf.size).map final, offset := out.offset, stride := so, n := n }
-  | _, _ => throw .badRequest
+    (choices : List Nat) : Except Err Result :=
+  match out.shape, y.shape, out.strides with
+  | [n], [w], [so] =>             -- `n_samples = len(out)`, `n_features = len(y)`
+    if !(X.extentOk && y.extentOk && out.extentOk) then .error .badRequest
+    -- distinct rows must own distinct cells (false only for a stride-0 `as_strided` alias)
+    else if so = 0 ∧ 1 < n then .error .badRequest
+    else match X.rows? n w, y.elems? w with
+      | some rows, some ys =>
+        let progs := progsOf k term rows ys
+        let final := runMem out.offset so (schedule progs choices) (storeOf out.buf)
+        .ok { buf := (List.range out.buf.size).map final, offset := out.offset, stride := so, n := n }
+      | _, _ => .error .badRequest
+  | _, _, _ => .error .badRequest
 
 /-- the arrays of a call, element type resolved -/
 inductive Data where
   | ints (X y : Arr Int)
   | rats (X y : Arr Rat)
 
-/-- `libdist.euclidean / manhattan / hamming (X, y, out)` -/
+/-- the `out` array the kernel receives: the caller's, or `np.zeros((X.shape[0]))` (L56) -/
+def outArrOf (out : Option (Meta × Arr Cell)) (oshape : List Nat) : Arr Cell :=
+  match out with
+  | some (_, a) => a
+  | none => { buf := Array.replicate oshape.sum (.val 0), offset := 0, shape := oshape, strides := [1] }
+
+/-- `libdist.euclidean / manhattan / hamming (X, y, out)`: `_prepare_for_2d_to_1d_distance`,
+then the fused dispatch of `_kernel(X, y, out)`, then the kernel; the wrapper returns `out` -/
 def call (k : Kernel) (Xm ym : Meta) (data : Data) (out : Option (Meta × Arr Cell))
-    (choices : List Nat) : Except Err Result := do
-  let oshape ← prepare Xm ym (out.map (·.1))
-  let t ← dispatch k Xm ym ((out.map (·.1.writable)).getD true)
-  let outArr : Arr Cell := match out with
-    | some (_, a) => a
-    | none => { buf := Array.replicate oshape.sum (.val 0), offset := 0,   -- np.zeros((X.shape[0]))
-                shape := oshape, strides := [1] }
-  match t.promote, data with
-  | some c, .ints X y => kernelRun k (termInt k c) X y outArr choices
-  | none, .rats X y => kernelRun k (termRat k) X y outArr choices
-  | _, _ => throw .badRequest
+    (choices : List Nat) : Except Err Result :=
+  match prepare Xm ym (out.map (·.1)) with
+  | .error e => .error e
+  | .ok oshape =>
+    match dispatch k Xm ym ((out.map (·.1.writable)).getD true) with
+    | .error e => .error e
+    | .ok t =>
+      match t.promote, data with
+      | some c, .ints X y => kernelRun k (termInt intArith k c) X y (outArrOf out oshape) choices
+      | none, .rats X y => kernelRun k (termRat k) X y (outArrOf out oshape) choices
+      | _, _ => .error .badRequest
 
 end Ens.Dist
